@@ -5,6 +5,62 @@ import json, os
 HERE = os.path.dirname(os.path.dirname(os.path.abspath(__file__)))
 
 CLAIMED = {
+    "C01": dict(
+        text="Every generated (csvpath, file) is run through the real CsvPath with one event per _consider_line call "
+        "(returned?, per-component votes, counters, variables, printouts); TLC validates each recorded trace step by step "
+        "against the run machine spec/RunTrace.tla = Run.tla + Eval.tla (a recursive TLA+ evaluator of the match language) + "
+        "Scan.tla + Assign.tla + Values.tla, so a trace is accepted iff the implementation returned exactly the lines the "
+        "specification's evaluation of the components says, at every line. Rejections are re-validated under the named "
+        "deviations of the listed known findings (lt answers <=; cells compared as text).",
+        note="Trusted: TLC, the projection (lib/runner.snapshot), python csv round trip. Generated programs stay inside the "
+        "modelled function set and are built so that no argument-validation error arises (C05 covers errors). "
+        "At most one onmatch look-ahead per csvpath; a 'last() ->' component comes last (the property's quantifier).",
+        technique="trace validation: implementation traces checked by TLC against an explicit TLA+ run machine + evaluator",
+        ref="7 (C01)",
+    ),
+    "C03": dict(
+        text="Same trace validation as C01; judged fields are the whole variable store after every line (plain, tracking and "
+        "stack variables and the bookkeeping of count/tally/sum/subtotal/counter/first/push/pop), scan_count, match_count and "
+        "the printouts, compared with the state the TLA+ evaluator (Eval.tla) reaches for the same line.",
+        note="Trusted as C01. Variables named by hash ids (_intx_...) and tracking entries created by a mere read are outside "
+        "the judged variables (spec/CHOICES.md). Non-integral floats are out of the value model (counted, not judged).",
+        technique="trace validation against the TLA+ run machine (Run/Eval/Values)",
+        ref="7 (C03)",
+    ),
+    "C04": dict(
+        text="Trace validation of generated csvpaths with conditional fail()/fail_and_stop()/failed()/valid(): the is_valid bit "
+        "logged after every line must equal the specification's; ValidityMonotone is checked by TLC as an action property on "
+        "every validated trace. (The named-paths aggregation part is checked by C09's machinery once built.)",
+        note="Trusted as C01. Error-policy 'fail' is covered by C05.",
+        technique="trace validation against the TLA+ run machine; TLC action property ValidityMonotone",
+        ref="7 (C04)",
+    ),
+    "C07": dict(
+        text="Each generated case is run with collect(), next(), fast_forward() and collect(nexts=n) for n in 1..matches+1; "
+        "every trace and final state must be accepted by the same deterministic run machine (RunTrace.tla), which makes the "
+        "runs equal and makes collect(nexts=n) a prefix with no later side effect (the spec's Step stops at the n-th returned line).",
+        note="Trusted as C01. _freeze_path after an abandoned generator is not judged.",
+        technique="trace validation of four entry points against one deterministic TLA+ run machine",
+        ref="7 (C07)",
+    ),
+    "C13": dict(
+        text="Trace validation of generated csvpaths with conditional stop/fail_and_stop/skip/advance at every position and "
+        "last()/last()-> components, over files with interior and trailing blank records and all scan shapes: stopped, advance, "
+        "the side effects of every component (stacks, variables, printouts) and the returned lines are compared per line with "
+        "the run machine (Eval!Fold checks stop/skip before each component; Run!Consider models advance and the blank final record).",
+        note="Trusted as C01. onmatch look-ahead together with skip/stop is excluded (spec/CHOICES.md).",
+        technique="trace validation against the TLA+ run machine (control functions)",
+        ref="7 (C13)",
+    ),
+    "C15": dict(
+        text="Run part: generated csvpaths x combinations of logic-mode, return-mode, unmatched-mode, run-mode written in the outer "
+        "comment; traces validated against Run.tla (no-matches inverts the per-line decision, keep partitions the records read "
+        "into returned/unmatched, no-run reads nothing).",
+        note="Trusted as C01. The metadata-parser part (Meta.tla) is a separate instance of this check (see DESIGN).",
+        technique="trace validation against the TLA+ run machine (modes)",
+        ref="7 (C15)",
+    ),
+
     "C02": dict(
         text="TLC explores exhaustively every scan AST of the quantifier's shapes x every file with blanks anywhere "
         "(spec/Scan.tla, spec/ScanRun.tla; invariants OfferedExactly, NothingElse, NoEarlyStop), and every terminal "
